@@ -35,6 +35,26 @@ fn show(r: Result<Vec<Option<sonic_rs::LazyValue<'_>>>, sonic_rs::Error>, n: usi
     }
 }
 
+/// the DECODED view of the slots (`as_str`): a slot holds exactly what `get` returns, seen through every accessor — the raw
+/// text alone does not show whether the value still knows that it contains escapes
+fn show_str(r: Result<Vec<Option<sonic_rs::LazyValue<'_>>>, sonic_rs::Error>) -> String {
+    use sonic_rs::JsonValueTrait;
+    match r {
+        Ok(v) => v
+            .iter()
+            .map(|x| match x {
+                Some(l) => match l.as_str() {
+                    Some(s) => format!("S{}", hex(s.as_bytes())),
+                    None => "-".to_string(),
+                },
+                None => "N".to_string(),
+            })
+            .collect::<Vec<_>>()
+            .join(","),
+        Err(_) => "Err".into(),
+    }
+}
+
 fn dump_sorted(v: &Value, out: &mut String) {
     if let Some(a) = v.as_array() {
         out.push('[');
@@ -96,7 +116,19 @@ pub fn run() {
                     Ok(l) => format!("A:{}", hex(l.as_raw_str().as_bytes())),
                     Err(_) => "E".into(),
                 }).collect();
-                format!("many={} manyu={} single={}", many, manyu, single.join(","))
+                let many_s = show_str(sonic_rs::get_many(&doc[..], &tree));
+                let manyu_s = if wf { show_str(unsafe { sonic_rs::get_many_unchecked(&doc[..], &tree) }) } else { "skip".into() };
+                let single_s: Vec<String> = paths.iter().map(|pa| {
+                    use sonic_rs::JsonValueTrait;
+                    match sonic_rs::get(&doc[..], pa.iter()) {
+                        Ok(l) => match l.as_str() {
+                            Some(s) => format!("S{}", hex(s.as_bytes())),
+                            None => "-".to_string(),
+                        },
+                        Err(_) => "E".into(),
+                    }
+                }).collect();
+                format!("many={} manyu={} single={} manyS={} manyuS={} singleS={}", many, manyu, single.join(","), many_s, manyu_s, single_s.join(","))
             }
         });
         out.line(&res);
